@@ -255,6 +255,98 @@ theorem longest_ge {cs : List Msg} {m : Msg} (hm : m ∈ cs) : m.signers.length 
   apply List.mem_map.mpr
   exact ⟨m, List.mem_filter.mpr ⟨hm, by simp⟩, rfl⟩
 
+theorem greedy_append (acc : List Nat) (l : List (List Nat)) (x : List Nat) :
+    greedy acc (l ++ [x]) = if common x (greedy acc l) then greedy acc l else greedy acc l ++ x := by
+  induction l generalizing acc with
+  | nil => by_cases hc : common x acc = true <;> simp [greedy, hc]
+  | cons m ms ih =>
+    simp only [List.cons_append, greedy]
+    split
+    · exact ih acc
+    · exact ih (acc ++ m)
+
+theorem greedy_append_length_ge (acc : List Nat) (l : List (List Nat)) (x : List Nat) :
+    (greedy acc l).length ≤ (greedy acc (l ++ [x])).length := by
+  rw [greedy_append]
+  split
+  · exact Nat.le_refl _
+  · simp
+
+theorem longestLen_append_ge (l : List (List Nat)) (x : List Nat) : longestLen l ≤ longestLen (l ++ [x]) := by
+  induction l with
+  | nil => exact Nat.zero_le _
+  | cons m ms ih =>
+    simp only [List.cons_append, longestLen]
+    exact Nat.max_le.mpr ⟨Nat.le_trans (greedy_append_length_ge m ms x) (Nat.le_max_left _ _),
+      Nat.le_trans ih (Nat.le_max_right _ _)⟩
+
+/-- adding a message to the commit container never lowers what `LongestUniqueSignersForRoundAndRoot` finds -/
+theorem longest_append_ge (cs : List Msg) (m : Msg) (round root : Nat) :
+    longest cs round root ≤ longest (cs ++ [m]) round root := by
+  unfold longest bucket
+  rw [List.filter_append, List.map_append]
+  by_cases hm : (m.round == round && m.root == root) = true
+  · simp only [List.filter_cons, hm, if_true, List.filter_nil, List.map_cons, List.map_nil]
+    exact longestLen_append_ge _ _
+  · have : (m.round == round && m.root == root) = false := by simpa using hm
+    simp [this]
+
+/-- compaction leaves the buckets of the rounds it keeps alone -/
+theorem longest_trim (i : Inst) (round root : Nat) (h : i.round ≤ round) :
+    longest (trim i).commits round root = longest i.commits round root := by
+  unfold longest bucket trim
+  simp only
+  rw [List.filter_filter]
+  congr 2
+  apply List.filter_congr
+  intro m _
+  by_cases hr : m.round = round
+  · subst hr; simp [h]
+  · have : (m.round == round) = false := by simpa using hr
+    simp [this]
+
+theorem greedy_range (k j : Nat) :
+    greedy (List.range' 1 k) ((List.range' (k + 1) j).map (fun x => [x])) = List.range' 1 (k + j) := by
+  induction j generalizing k with
+  | zero => simp [greedy]
+  | succ j ih =>
+    rw [List.range'_succ]
+    simp only [List.map_cons, greedy]
+    have hc : common [k + 1] (List.range' 1 k) = false := by
+      simp [common, List.mem_range'_1]; omega
+    rw [hc]
+    simp only [Bool.false_eq_true, if_false]
+    have : List.range' 1 k ++ [k + 1] = List.range' 1 (k + 1) := by
+      rw [List.range'_concat, Nat.one_mul, Nat.add_comm 1 k]
+    rw [this, ih (k + 1)]
+    congr 1
+    omega
+
+/-- the commits of operators 1..q of one (round, root): `LongestUniqueSignersForRoundAndRoot` finds all q signers -/
+theorem longest_singles (q root : Nat) :
+    (List.range' 1 q).length ≤ longest (singles q root) Gen.heights_FirstRound root := by
+  unfold longest bucket singles
+  have hf : ((List.range' 1 q).map (fun k => (⟨Gen.heights_FirstRound, root, [k]⟩ : Msg))).filter
+      (fun m => m.round == Gen.heights_FirstRound && m.root == root) =
+      (List.range' 1 q).map (fun k => (⟨Gen.heights_FirstRound, root, [k]⟩ : Msg)) := by
+    apply List.filter_eq_self.mpr
+    intro m hm
+    obtain ⟨k, _, rfl⟩ := List.mem_map.mp hm
+    simp
+  rw [hf, List.map_map]
+  have hcomp : ((fun (x : Msg) => x.signers) ∘ fun k => (⟨Gen.heights_FirstRound, root, [k]⟩ : Msg)) = fun k => [k] := rfl
+  rw [hcomp]
+  cases q with
+  | zero => simp
+  | succ n =>
+    rw [List.range'_succ]
+    simp only [List.map_cons, longestLen]
+    refine Nat.le_trans ?_ (Nat.le_max_left _ _)
+    have := greedy_range 1 n
+    simp only [List.range'_one] at this
+    rw [this]
+    simp [Nat.add_comm]
+
 theorem trim_height (i : Inst) : (trim i).height = i.height := rfl
 theorem trim_round (i : Inst) : (trim i).round = i.round := rfl
 theorem trim_decided (i : Inst) : (trim i).decided = i.decided := rfl
